@@ -2,7 +2,7 @@
 # MANIFEST.setup_cmd: build the Lean library (models + theorems) and the driver, offline.
 set -e
 cd "$(dirname "$0")"
-/venv/bin/python harness/gen_tables.py
+/venv/bin/python -c "import sys; sys.path.insert(0,'harness'); import gen_tables; f=gen_tables.main(); print(f); sys.exit(1 if f else 0)"
 cd lean
 lake build drv Hdl21Model 2>&1 | tail -5
 test -x .lake/build/bin/drv
